@@ -1,6 +1,6 @@
 (* C12 property theorems only (on the unit-phase LTS of Model_C11). *)
 From Coq Require Import List NArith Bool Arith.
-From Verif Require Import C11.Model_C11 C11.Proofs_C11 C12.Proofs_C12 C12.Gen_C12 C12.GenProofs_C12 C11.ModelP_C11 C11.ProofsP_C11.
+From Verif Require Import C11.Model_C11 C11.Proofs_C11 C12.Proofs_C12 C12.Gen_C12 C12.GenProofs_C12 C11.ModelP_C11 C11.ProofsP_C11 C11.ProofsP3_C11.
 Import ListNotations.
 
 (* After a stop request (or the failure limit) at most one further request per worker is sent:
@@ -151,3 +151,33 @@ Theorem C12_stateful_one_step_after_stop_is_reached :
                              (pinit false false 0 [([[StOk; StOk]], ROk)]))) = 1.
 Proof. vm_compute. reflexivity. Qed.
 Print Assumptions C12_stateful_one_step_after_stop_is_reached.
+
+(* "After a stop request no new scenario is started", stateful phase: false by one - setup() does not look at the flag, so a
+   stop that arrives between two scenarios lets one more scenario be announced (finding C12-F1; it sends nothing) ... *)
+Theorem C12_stateful_scenario_after_stop_refuted : exists c behs s1 s2,
+  let a := pstep c (prun c s1 (pinit false false 0 behs)) LStop in
+  count_scs (p_out (prun c s2 a)) = S (count_scs (p_out a)) /\ p_bodies (prun c s2 a) = [false].
+Proof.
+  exists {| p_maxf := None; p_maxex := 5 |}, [([[StOk]; [StOk]], ROk)], (repeat LP 5), (repeat LP 9).
+  destruct one_scenario_after_stop_is_reached as (H1 & H2 & H3). cbv zeta. rewrite H2, H1. split; [reflexivity|exact H3].
+Qed.
+Print Assumptions C12_stateful_scenario_after_stop_refuted.
+
+(* ... and never by more than one, whenever every scenario Hypothesis starts has at least one step (its runner always
+   executes a first step): for every behaviour, limit, history before (s1) and after (s2) the request. *)
+Theorem C12_stateful_scenarios_after_stop_le_one_partial : forall c stop0 limit0 counter0 behs s1 s2,
+  forallb nonempty_beh behs = true ->
+  let a := pstep c (prun c s1 (pinit stop0 limit0 counter0 behs)) LStop in
+  count_scs (p_out (prun c s2 a)) <= S (count_scs (p_out a)).
+Proof. exact scenarios_after_stop. Qed.
+Print Assumptions C12_stateful_scenarios_after_stop_le_one_partial.
+
+(* scenarios without any step never test the flag: the hypothesis is needed *)
+Theorem C12_stateful_scenarios_after_stop_needs_steps : exists c behs s1 s2,
+  let a := pstep c (prun c s1 (pinit false false 0 behs)) LStop in
+  ~ count_scs (p_out (prun c s2 a)) <= S (count_scs (p_out a)).
+Proof.
+  exists {| p_maxf := None; p_maxex := 5 |}, [([[]; []; []], ROk)], (repeat LP 2), (repeat LP 9).
+  destruct scenarios_after_stop_needs_steps as (H1 & H2). cbv zeta. rewrite H2, H1. intros Hc. inversion Hc as [|? Hc']. inversion Hc'.
+Qed.
+Print Assumptions C12_stateful_scenarios_after_stop_needs_steps.
